@@ -116,6 +116,14 @@ def check_case(rec, case):
         if not o.ok:
             report_failure(rec, o, 'nfa_to_dfa', container=case['container'], after_in_place_change=True)
             return
+        # and after a change that keeps every size (states, delta keys, targets): one target replaced by another state
+        if common.retarget_in_place(N, repr(R)):
+            rec.counters['requery_after_size_preserving_change'] += 1
+            call(na.nfa_accepts_word, N, '')
+            o = call(na.nfa_to_dfa, N)
+            if not o.ok:
+                report_failure(rec, o, 'nfa_to_dfa', container=case['container'], after_in_place_change='retarget')
+                return
     # the notebook generator's route: file -> parse_nfa -> nfa_to_dfa -> print_dfa ; the text
     # must read back (with the set-label convention) as an equivalent total DFA
     if case.get('notebook') and case['eps'] and len(R[1]) > 0 and all(re.fullmatch(r'\w', x) for x in R[1]) and all(re.fullmatch(r'\w+', q) for q in R[0]):
